@@ -32,6 +32,20 @@ static size_t os_get_num_jobs(void)
 }
 #endif
 
+static void remove_output_file(const char *filename)
+{
+#if defined(_WIN32) || defined(__WINDOWS__)
+	WCHAR *path = path_to_windows(filename);
+
+	if (path != NULL)
+		DeleteFileW(path);
+
+	free(path);
+#else
+	unlink(filename);
+#endif
+}
+
 void sqfs_writer_cfg_init(sqfs_writer_cfg_t *cfg)
 {
 	memset(cfg, 0, sizeof(*cfg));
@@ -217,5 +231,6 @@ fail_fs:
 	fstree_cleanup(&sqfs->fs);
 fail_file:
 	sqfs_drop(sqfs->outfile);
+	remove_output_file(wrcfg->filename);
 	return -1;
 }
